@@ -16,7 +16,7 @@ def run(chk, tier):
                 'an entry have no Unmock arm and fall through to Continuation::report => CannotUnmock via induce_panic. Runtime: the '
                 'Unmock continuation only arises from the documented rows of eval_dyn / eval::eval.')
     X.check_traits(chk, tier, chk.seed, {'C16'})
-    for cfg in configs(tier, thorough=('std',)):
+    for cfg in configs(tier, thorough=('std', 'mocks', 'nostd-spin', 'nostd')):
         F = load(chk, cfg)
         E.eval_dyn_table(chk, F, 'R16.4', cfg)
         E.eval_table(chk, F, 'R16.4.eval', cfg)
